@@ -429,6 +429,9 @@ def main():
         for r in recs:
             if r.get("sig_only"):
                 continue
+            if r.get("extract_error"):
+                undecided.append("%s|%s|%s: %s (function emitted with its contract only; not verified)" % (r["file"], r["container"], r["name"], r["extract_error"]))
+                continue
             if r.get("discharged_by_twin"):
                 # in-trait copy of a default method: its contract is discharged by the free twin (R16)
                 continue
